@@ -187,4 +187,8 @@ def run_check(pid, runner, tier, seed):
         runner(chk)
     except AnalysisError as e:
         chk.unknown("analysis", "engine", str(e))
+    except Exception as e:      # an engine bug is never a verdict
+        import traceback
+        traceback.print_exc()
+        chk.unknown("analysis", "engine-crash", "%s: %s" % (type(e).__name__, e))
     return chk.finish()
